@@ -131,7 +131,7 @@ func (b *Bench) Execute(id int, s *Scenario) (*Exec, error) {
 		st.Faults = []idp.Fault{*s.Fault}
 	}
 	now := time.Now()
-	abs.Now = now.UnixNano()
+	abs.Now = now.UnixMicro()
 	rep := env.Do(built.Spec.HTTP())
 	obs := Project(rep, st)
 	create := "None"
